@@ -39,17 +39,18 @@ def table_run(lit, mark, table, dec):
 
 
 def work(item):
-    code, prefs, cases = item
+    code, prefs, cases = item[:3]
+    mode = item[3] if len(item) > 3 else "num"
     mc = mcx.worker_mc()
     lang, mark, table, dec = CODES[code]
     setup = [["rules_dir", mcx.RULES], ["pref", "TTS", "none"], ["pref", "Language", lang], ["pref", "BrailleCode", code],
              ["pref", "BrailleNavHighlight", "Off"]] + prefs
-    pk = json.dumps(prefs)
+    pk = json.dumps(prefs) + ("" if mode == "num" else "#" + mode)
     viol, counts, nontriv = [], {"evaluations": 0, "skipped_panics": 0, "rejected": 0, "literals_checked": 0, "braille_errors_left_to_C15": 0}, []
     # reference cell runs from the bare literal, validated against the digit tables
     ck = (code, pk)
     if ck not in _REF:
-        lits = [x.replace(".", mark) for x in terms.Filler.NUMS]
+        lits = [x.replace(".", mark) for x in terms.Filler.NUMS] if mode == "num" else list(terms.Filler.INTS)
         _, r = mc.run_cases(setup, [[["mathml", f"<math><mn>{l}</mn></math>"], ["braille", ""]] for l in lits])
         ref = {}
         for l, x in zip(lits, r):
@@ -74,7 +75,7 @@ def work(item):
         alone = set()
         d1 = []
         for name, slots, _ in terms.CONSTRUCTS:
-            f = terms.Filler("num", mark)
+            f = terms.Filler(mode, mark)
             d1.append((name, terms.build((name, None, None), f), list(f.planted)))
         _, r1 = mc.run_cases(setup, [[["mathml", terms.doc(t)], ["braille", ""]] for _, t, _ in d1])
         for (name, t, planted), x in zip(d1, r1):
@@ -88,7 +89,7 @@ def work(item):
     ref, alone = _REF[ck]
     built = []
     for label, sh in cases:
-        f = terms.Filler("num", mark)
+        f = terms.Filler(mode, mark)
         t = terms.build(sh, f)
         built.append((label, sh, t, list(f.planted)))
     _, res = mc.run_cases(setup, [[["mathml", terms.doc(t)], ["braille", ""]] for _, _, t, _ in built])
@@ -106,7 +107,7 @@ def work(item):
         b = unhighlight(val(r[1]))
         nontriv.append(hash((code, pk, b)))
         need = c04.literal_counts(planted)
-        replay = {"code": code, "prefs": prefs, "label": label, "shape": sh}
+        replay = {"code": code, "prefs": prefs, "label": label, "shape": sh, "mode": mode}
         for k, lit in enumerate(planted):
             if lit not in ref:
                 continue
@@ -123,7 +124,7 @@ def work(item):
                 else:
                     ctx = "under:" + chain
                 pn = "+".join(p[1] for p in prefs) or "default"
-                viol.append((f"C06|{code}|{pn}|missing@{site}|{ctx}", f"[{code} {pn}] {label}: literal {lit} (operand {site}) has no cell run {ref[lit][0]!r} in {b!r}", replay))
+                viol.append((f"C06|{code}|{pn}{'' if mode == 'num' else '|' + mode}|missing@{site}|{ctx}", f"[{code} {pn}] {label}: literal {lit} (operand {site}) has no cell run {ref[lit][0]!r} in {b!r}", replay))
     return viol, counts, nontriv
 
 
@@ -173,7 +174,62 @@ def work_walk(item):
     return viol, counts, nontriv
 
 
+def work_digits(item):
+    """every digit in every numeric operand slot of every construct (depth 1): the literal's cell run - upper or lowered digit table,
+    validated against the bare <mn> - must be in the braille"""
+    code, prefs = item
+    mc = mcx.worker_mc()
+    lang, mark, table, dec = CODES[code]
+    setup = [["rules_dir", mcx.RULES], ["pref", "TTS", "none"], ["pref", "Language", lang], ["pref", "BrailleCode", code], ["pref", "BrailleNavHighlight", "Off"]] + prefs
+    built = []
+    for name, slots, _ in terms.CONSTRUCTS:
+        probe = terms.Filler("int")
+        terms.build((name, None, None), probe)
+        for k in range(len(probe.planted)):
+            for dgt in range(10):
+                f = terms.DigitFiller(k, dgt)
+                t = terms.build((name, None, None), f)
+                built.append((name, k, dgt, t, list(f.planted)))
+    lits = sorted({l for b in built for l in b[4]})
+    _, rb = mc.run_cases(setup, [[["mathml", f"<math><mn>{l}</mn></math>"], ["braille", ""]] for l in lits])
+    ref = {}
+    for l, x in zip(lits, rb):
+        if table is None:
+            ref[l] = [l]
+        else:
+            ref[l] = table_run(l, mark, table, dec) + table_run(l, mark, LOWER, dec)
+            if is_ok(x[1]) and not any(run in unhighlight(val(x[1])) for run in ref[l]):
+                ref[l] = None            # the bare number itself is off: family 1 reports that
+    _, res = mc.run_cases(setup, [[["mathml", terms.doc(t)], ["braille", ""]] for _, _, _, t, _ in built])
+    viol, counts, nontriv = [], {"evaluations": 0, "skipped_panics": 0, "rejected": 0, "literals_checked": 0, "braille_errors_left_to_C15": 0}, []
+    # a slot whose literal is missing for EVERY digit is the context-free loss family 1 already reports (e.g. a shape sign replacing the content)
+    hits = {}
+    for (name, k, dgt, t, planted), r in zip(built, res):
+        counts["evaluations"] += 1
+        if not (is_ok(r[0]) and is_ok(r[1])):
+            counts["braille_errors_left_to_C15"] += 1
+            continue
+        b = unhighlight(val(r[1]))
+        nontriv.append(hash((code, "digits", b)))
+        lit = planted[k]
+        if ref.get(lit) is None:
+            continue
+        counts["literals_checked"] += 1
+        hits.setdefault((name, k), {})[dgt] = (max(b.count(run) for run in ref[lit]) >= 1, b, lit)
+    for (name, k), per in hits.items():
+        bad = [d_ for d_, (ok, _, _) in per.items() if not ok]
+        if bad and len(bad) < len(per):
+            d_ = bad[0]
+            _, b, lit = per[d_]
+            viol.append((f"C06|{code}|digit|{name}.{k}", f"[{code}] {name}: the literal {lit} in operand {k} has no cell run (upper {ref[lit][0]!r} or lowered {ref[lit][-1]!r}) in {b!r}, "
+                         f"while the literals starting with the digits {sorted(set(per) - set(bad))} are rendered there (digits affected: {bad})",
+                         {"digits": True, "code": code, "prefs": prefs, "label": name, "shape": None}))
+    return viol, counts, nontriv
+
+
 def _dispatch(job):
+    if job[0] == "G":
+        return work_digits(job[1:])
     return work_walk(job[1:]) if job[0] == "W" else work(job)
 
 
@@ -187,10 +243,13 @@ def confirm(replay, verbose=False):
     _REF.clear()
     try:
         cases = [] if replay["shape"] is None else [(replay["label"], c04._tup(replay["shape"]))]
-        if "walk" in replay:
+        if replay.get("digits"):
+            v, _, _ = work_digits((replay["code"], replay["prefs"]))
+            v = [x for x in v if x[2]["label"] == replay["label"]]
+        elif "walk" in replay:
             v, _, _ = work_walk((replay["walk"][0], replay["walk"][1], cases))
         else:
-            v, _, _ = work((replay["code"], replay["prefs"], cases))
+            v, _, _ = work((replay["code"], replay["prefs"], cases, replay.get("mode", "num")))
     finally:
         mcx._worker_mc = old
         mc.close()
@@ -214,6 +273,13 @@ def main(tier):
                 cs += deep4
             for i in range(0, len(cs), 900):
                 jobs.append((code, prefs, cs[i:i + 900]))
+            # the same spine terms with INTEGER literals (every digit in every place): lowered digits, ordinals, indicator-free subscripts
+            ci = list(shapes)
+            for i in range(0, len(ci), 900):
+                jobs.append((code, prefs, ci[i:i + 900], "int"))
+    for code in CODES:
+        for prefs in CODE_PREFS[code]:
+            jobs.append(("G", code, prefs))
     wshapes = list(shapes) if tier == "thorough" else list(shapes[::3])
     run.count("code_walk_shapes", len(wshapes))
     for a in CODES:
@@ -241,7 +307,7 @@ def main(tier):
             run.nontriv(h)
     return run.finish(
         rule="planted-literal terms as in C04 (all spine terms to depth 2; depth 3 over a 12-construct core for Nemeth/UEB/LaTeX in quick, all codes in "
-             "thorough; depth 4 over a 6-construct core in thorough) x codes {Nemeth, UEB, CMU, Vietnam, LaTeX, ASCIIMath} x code preferences "
+             "thorough; depth 4 over a 6-construct core in thorough; all spine terms to depth 2 again with integer literals; every digit in every numeric operand slot of every construct) x codes {Nemeth, UEB, CMU, Vietnam, LaTeX, ASCIIMath} x code preferences "
              "(UEB start mode and operator spacing, Vietnam drop numbers, LaTeX short names, ASCIIMath operator spacing); plus code walks on the SAME stored "
              "expression: braille under A, then under B without a new set_mathml, for all 30 ordered pairs (quick: every third spine term; thorough: all). "
              "distinct_nontrivial = distinct (code, preferences, braille string) triples",
